@@ -9,7 +9,7 @@ import dataflows as DF
 from dataflows import Flow
 from dataflows.processors.load import load as Load
 
-from .. import canon, fast, stepcorr as S  # noqa: F401
+from .. import pycorr, canon, fast, stepcorr as S  # noqa: F401
 from ..common import quiet
 
 CELLS = ['x', 'a b', ' lead', 'trail ', '  both  ', 'q"uote', 'com,ma', 'new\nline', 'ünï', '😀', '12', '-3', '1.5', '007',
@@ -372,6 +372,7 @@ def run(ctx):
                 o = rep.oracle_failures[before]
                 return {'signature': o['signature'], 'case': o['case'], 'detail': o['detail']}
         return None
+    pycorr.run(ctx)
     return ctx.finish(probe=probe, search=search)
 
 
